@@ -120,6 +120,10 @@ class Ctx:
                     print("    via " + str(step))
             print("VIOLATION property=%s replay=%s" % (self.prop, p))
             replay_paths.append(p)
+        else:
+            stale = os.path.join(vio_dir, "%s.json" % self.prop)
+            if os.path.exists(stale):
+                os.remove(stale)
         samples = []
         seen_rules = set()
         for r, inst, ok, d in self.obligations:
